@@ -101,7 +101,6 @@ var (
 	ErrSignatureEmpty = errors.New("signature is empty")
 )
 
-// ValidateBasic performs basic validation of a signed header.
 func (sh *SignedHeader) ValidateBasic() error {
 	if err := sh.Header.ValidateBasic(); err != nil {
 		return err
@@ -113,6 +112,13 @@ func (sh *SignedHeader) ValidateBasic() error {
 
 	// Check that the proposer address in the signed header matches the proposer address in the validator set
 	if !bytes.Equal(sh.ProposerAddress, sh.Signer.Address) {
+		return ErrProposerAddressMismatch
+	}
+
+	// The signature is verified with the public key carried in the header, so that key must be the
+	// one the signer's address is derived from. Without this anybody could sign a header under the
+	// proposer's address with a key of their own.
+	if sh.Signer.PubKey == nil || !bytes.Equal(KeyAddress(sh.Signer.PubKey), sh.Signer.Address) {
 		return ErrProposerAddressMismatch
 	}
 
